@@ -479,6 +479,19 @@ func (p *parser) parseContainerType(node *node32) (typ *Type, err error) {
 	}
 }
 
+// parseIntConstant converts the text of an IntConstant: decimal digits with an
+// optional sign (a leading zero does not make them octal), or a number with a
+// 0x or 0o prefix.
+func parseIntConstant(text string, bits int) (int64, error) {
+	i, err := strconv.ParseInt(text, 10, bits)
+	if err != nil {
+		if j, e := strconv.ParseInt(text, 0, bits); e == nil {
+			return j, nil
+		}
+	}
+	return i, err
+}
+
 func (p *parser) parseConstValue(node *node32) (cv *ConstValue, err error) {
 	node, err = checkrule(node, ruleConstValue)
 	if err != nil {
@@ -491,7 +504,7 @@ func (p *parser) parseConstValue(node *node32) (cv *ConstValue, err error) {
 		double, _ := strconv.ParseFloat(strings.TrimSpace(p.pegText(node)), 64)
 		return &ConstValue{Type: ConstType_ConstDouble, TypedValue: &ConstTypedValue{Double: &double}}, nil
 	case ruleIntConstant:
-		i, err := strconv.ParseInt(p.pegText(node), 0, 64)
+		i, err := parseIntConstant(p.pegText(node), 64)
 		if err != nil {
 			return nil, fmt.Errorf("parseConstValue failed at '%s': %w", p.pegText(node), err)
 		}
@@ -585,7 +598,10 @@ func (p *parser) parseEnum(node *node32) (err error) {
 			v.Name = p.pegText(n)
 			if n.next.pegRule == ruleEQUAL {
 				n = n.next.next
-				v.Value, _ = strconv.ParseInt(p.pegText(n), 0, 64)
+				v.Value, err = parseIntConstant(p.pegText(n), 64)
+				if err != nil {
+					return fmt.Errorf("parseEnum failed at '%s': %w", p.pegText(n), err)
+				}
 			} else {
 				if len(values) == 0 {
 					v.Value = 0
@@ -749,11 +765,9 @@ func (p *parser) parseField(node *node32) (field *Field, err error) {
 				f.ReservedComments = reservedComments
 			}
 		case ruleFieldId:
-			// an id is an IntConstant: decimal, or 0x / 0o prefixed
-			text := p.pegText(node)
-			i, err := strconv.ParseInt(text, 10, 32)
+			i, err := parseIntConstant(p.pegText(node), 32)
 			if err != nil {
-				i, _ = strconv.ParseInt(text, 0, 32)
+				return nil, fmt.Errorf("parseField failed at '%s': %w", p.pegText(node), err)
 			}
 			f.ID = int32(i)
 		case ruleFieldReq:
